@@ -146,3 +146,24 @@ def c20_lenh(v, spec):
     # nx*ny >= LENH + 108; smaller grids make it read into the next record.
     return (v['kind'].startswith('arl-reader-raised') and
             v.get('nx', 99) * v.get('ny', 99) < v.get('lenh', 0) + 108)
+
+
+@pred('C19-missing-code-over-7-digits')
+def c19_long_code(v, spec):
+    # data rows are written with '%.6e' (7 significant digits); a missing
+    # code with more digits (e.g. -99999999 -> -1.000000e+08) no longer
+    # equals the code declared in the header, so those cells come back
+    # unmasked.
+    if v['kind'] != 'icartt-roundtrip-differs':
+        return False
+    codes = {x['name']: x['code'] for x in spec.get('vars', [])}
+    pr = v.get('problems') or []
+    if not pr:
+        return False
+    for p in pr:
+        if 'mask of missing data differs' not in p:
+            return False
+        name = p.split(':', 1)[1].split()[0]
+        if len(str(abs(codes.get(name, 0)))) <= 7:
+            return False
+    return True
